@@ -7,7 +7,7 @@
 
 use super::{
     boundary::SimulationBoundary,
-    convex_cell::{ConvexCell, WithoutFaces},
+    convex_cell::ConvexCell,
     half_space::HalfSpace,
     Dimensionality, Generator,
 };
@@ -17,6 +17,10 @@ use crate::rtree_nn::{build_rtree, nn_iter, wrapping_nn_iter};
 use crate::space::Space;
 use glam::DVec3;
 use std::cell::RefCell;
+
+/// The type-state markers of [`ConvexCell`], so that harness code can name cell and integrator types
+/// independently of what the crate root re-exports.
+pub use super::convex_cell::{WithFaces, WithoutFaces};
 use std::sync::atomic::{AtomicBool, AtomicU64, Ordering};
 use std::sync::Mutex;
 
